@@ -660,7 +660,7 @@ fn main() {
     ck.assume("operator level (MatMulInteger, ConvInteger, DynamicQuantizeLinear) is covered elsewhere; this check stays at the rten-gemm API");
     ck.set_threads(8);
 
-    let n = ck.pick(8_000, 400_000);
+    let n = ck.pick(6_000, 100_000);
     ck.prop("general", n, || case(Kind::General), oracle);
     ck.prop("gemv", n / 3, || case(Kind::Gemv), oracle);
     ck.prop("im2col", n / 4, || case(Kind::Im2col), oracle);
